@@ -48,7 +48,8 @@ KINDS = [None, 'table', 'graph', 'csv', 'zzz']
 WHATS = ['string', 'textfile', 'binary', 'frame']
 F_PARQUET = 'F-regen-parquet-dtype-roundtrip'
 
-TEXTS = ['', 'one line\n', 'no final newline', 'a\nb\nc\n', 'crlf\r\nline\r\n',
+TEXTS = ['\n\nalpha\n  beta\n', '   \n', 'x\n\n\n', '  lead\ntrail  \n\n',
+         '', 'one line\n', 'no final newline', 'a\nb\nc\n', 'crlf\r\nline\r\n',
          'cr only\rnext\r', 'mixed\r\nand\nlines', 'nel\x85inside\n',
          'ls inside\n', '﻿bom first\n', 'trailing blank\n\n',
          'é ü 中文 😀\n', '  padded  \n\ttab\n', 'ff\x0cpage\n', '\n',
@@ -187,8 +188,11 @@ def history(draw):
     def an_assert(kinds_pref):
         (what, fi) = draw(st.sampled_from(files))
         kind = draw(st.sampled_from(kinds_pref + kinds_pref + KINDS))
-        return {'op': 'assert', 'what': what, 'file': fi, 'kind': kind,
-                'content': draw(content_strategy(what))}
+        a = {'op': 'assert', 'what': what, 'file': fi, 'kind': kind,
+             'content': draw(content_strategy(what))}
+        if what in ('string', 'textfile') and draw(st.integers(0, 2)) == 0:
+            a['strip'] = draw(st.sampled_from(['l', 'r', 'lr']))
+        return a
     if draw(st.booleans()):
         steps.append(an_assert(KINDS))       # normal mode, maybe missing ref
     for _ in range(draw(st.integers(1, 3))):
@@ -239,6 +243,8 @@ def valid(case):
             elif op == 'assert':
                 if s['what'] not in WHATS or s['kind'] not in KINDS or (
                         s['file'] not in (0, 1)):
+                    return False
+                if s.get('strip') not in (None, 'l', 'r', 'lr'):
                     return False
                 c = s['content']
                 if s['what'] in ('string', 'textfile'):
@@ -364,15 +370,20 @@ EXT = {'string': 'txt', 'textfile': 'txt', 'binary': 'bin',
        'frame': 'parquet'}
 
 
-def do_assert(rt, what, value, ref_path, kind, actdir, n):
+def do_assert(rt, what, value, ref_path, kind, actdir, n, strip=None):
     """Perform the assertion; returns (ok, raised)."""
+    kw = {}
+    if strip:
+        kw = {'lstrip': 'l' in strip, 'rstrip': 'r' in strip}
     if what == 'string':
-        return quiet(rt.assertStringCorrect, value, ref_path, kind=kind)
+        return quiet(rt.assertStringCorrect, value, ref_path, kind=kind,
+                     **kw)
     if what == 'textfile':
         ap = os.path.join(actdir, 'actual%d.txt' % n)
         with open(ap, 'w', encoding='utf-8', newline='') as f:
             f.write(value)
-        return quiet(rt.assertTextFileCorrect, ap, ref_path, kind=kind)
+        return quiet(rt.assertTextFileCorrect, ap, ref_path, kind=kind,
+                     **kw)
     if what == 'binary':
         ap = os.path.join(actdir, 'actual%d.bin' % n)
         with open(ap, 'wb') as f:
@@ -439,26 +450,32 @@ def run(case, ctx):
                 table[None if k == 'ALL' else k] = True
             out.label('pytest-options')
         if op in ('set', 'argv', 'pytest'):
-            got = dict(ReferenceTest.regenerate)
-            if got != table:
-                out.violate('regeneration-table', op,
-                            '%s %r: table is %r, model %r'
-                            % (tag, s.get('tokens', (s.get('kind'),
-                                                     s.get('flag'))),
-                               got, table))
-                return out
+            # compare what the table MEANS (is this kind regenerated?), not
+            # how it is stored
+            probe = ReferenceTest(Recorder())
+            if hasattr(probe, '_should_regenerate'):
+                got = {k: bool(probe._should_regenerate(k)) for k in KINDS}
+                want = {k: bool(model_should(table, k)) for k in KINDS}
+                if got != want:
+                    out.violate('regeneration-table', op,
+                                '%s %r: kinds regenerated %r, model %r'
+                                % (tag, s.get('tokens', (s.get('kind'),
+                                                         s.get('flag'))),
+                                   got, want))
+                    return out
             continue
         # assertions
         if op == 'recheck':
             if not regenerated:
                 continue
             fname = sorted(regenerated)[s['k'] % len(regenerated)]
-            (what, content, kind) = regenerated[fname]
+            (what, content, kind, strip) = regenerated[fname]
             if model_should(table, kind):
                 continue
             expect_pass = True
         else:
             what, kind, content = s['what'], s['kind'], s['content']
+            strip = s.get('strip')
             fname = '%s%d.%s' % (what, s['file'], EXT[what])
             expect_pass = None
         ref_path = os.path.join(refdir, fname)
@@ -471,7 +488,7 @@ def run(case, ctx):
         rt.files.tmp_dir = tmpdir
         rt.pandas.tmp_dir = tmpdir
         rt.files.verbose = rt.pandas.verbose = False
-        ok, r = do_assert(rt, what, value, ref_path, kind, actdir, n)
+        ok, r = do_assert(rt, what, value, ref_path, kind, actdir, n, strip)
         after = snapshot(refdir)
         out.label('%s:%s:%s' % (what, 'regen' if selected else 'normal',
                                 'kind=%s' % kind))
@@ -531,7 +548,7 @@ def run(case, ctx):
                 out.violate('regeneration-touches-only-target', what,
                             '%s: other reference files changed: %r -> %r'
                             % (tag, sorted(others_b), sorted(others_a)))
-            regenerated[fname] = (what, content, kind)
+            regenerated[fname] = (what, content, kind, strip)
             regen_files.add(fname)
     out.nontrivial = len(case['steps']) >= 3 and (saw_regen_then_normal
                                                   or saw_normal_fail_existing)
